@@ -194,7 +194,26 @@ func (x *explorer) merge(out *PathResult) {
 				}
 			}
 		}
-		if x.violCount[key] >= 12 || x.violCount[shape] >= 2 {
+		if x.violCount[shape] >= 2 {
+			continue
+		}
+		if x.violCount[key] >= 12 {
+			// the first eight stay; the last four slots rotate through the shapes found
+			// later (exploration usually meets the small sizes first, and a change that only
+			// shows from a certain size on needs a later candidate to reproduce natively)
+			x.violCount[shape]++
+			x.violCount[key]++
+			slot, seen := 8+(x.violCount[key]-13)%4, 0
+			for i := range r.Violations {
+				if r.Violations[i].Kind+"|"+r.Violations[i].Label != key {
+					continue
+				}
+				if seen == slot {
+					r.Violations[i] = v
+					break
+				}
+				seen++
+			}
 			continue
 		}
 		x.violCount[key]++
